@@ -96,6 +96,7 @@ type c06Entry struct {
 func c06Entries() []c06Entry {
 	return []c06Entry{
 		{"token/client_credentials", func(h *c06Hist, d []c06Dev, k int) { h.entryCC(d, []int{1, 2}[k%2]) }},
+		{"token/jwt-bearer", func(h *c06Hist, d []c06Dev, k int) { h.entryJwtBearer(d, []int{1, 0}[k%2]) }},
 		{"token/authorization_code", func(h *c06Hist, d []c06Dev, k int) { h.entryCode(d, []int{3, 1}[k%2], k%annCount) }},
 		{"token/refresh_token(public)", func(h *c06Hist, d []c06Dev, k int) { h.entryRefresh(d, 3) }},
 		{"token/refresh_token(confidential)", func(h *c06Hist, d []c06Dev, k int) { h.entryRefresh(d, []int{1, 2}[k%2]) }},
